@@ -51,6 +51,16 @@ def cases(rng, tier, X):
                 ops.append('rx 0 ' + F.discover(mapper, 1, 1, eth_src=eth))
             ops.append('rx 0 ' + F.qltlv(mapper, own, 5, 0x0e, 0, eth_src=eth))
             ops.append('rx 0 ' + F.qltlv(mapper, own, 6, 0x0e, 3, eth_src=eth))
+        if rng.random() < 0.3 and mtu > 576:
+            # the interface MTU is lowered in the middle of a walk (the receive buffer keeps its size); the remaining chunks must fit the new MTU
+            ops.append('rx 0 ' + F.qltlv(mapper, own, 80, 0x0e, 0, eth_src=eth))
+            m2 = rng.choice([576, 576, mtu // 2, mtu - 1])
+            m2 = max(576, m2)
+            ops.append('set 0 mtu=%d' % m2)
+            off = P
+            while off <= size + (m2 - 34) and off <= 65535:
+                ops.append('rx 0 ' + F.qltlv(mapper, own, 81, 0x0e, off, eth_src=eth))
+                off += m2 - 34
         out.append(('l%d' % k, ops))
     if tier == 'thorough':
         mtu, P = 576, 542
